@@ -356,6 +356,9 @@ const WITNESSES: &[&str] = &[
     "module A {\n    always_comb {\n        for i /* k */ : u32 in 0..2 { }\n    }\n}\n",
     // multi-line comment followed by a token on its last line
     "module A {\n    always_comb {\n        /* a\n b */ for i: u32 in 0..2 { }\n    }\n}\n",
+    // comment run ending in a line feed, next token `/`: scnr2 reports it on the previous line (C12 KEY_SCNR)
+    "module A {\n    always_comb { for i: u32 in 0..2 { } }\n    assign b = a /* c */\n/ 1;\n}\n",
+    "module A {\n    always_comb { for i: u32 in 0..2 { } }\n    assign b = a // c\n/ 1;\n}\n",
     // CRLF
     "module A {\r\n    always_comb {\r\n        for i: u32 in 0..2 { // c\r\n        }\r\n    }\r\n}\r\n",
     // old-only lexical forms (string escapes the current grammar rejects)
